@@ -28,7 +28,7 @@ func init() {
 		Doc: "nothing reachable from a read-locked region mutates shared containers (alias-aware)", Run: runRdPure})
 	reg(&core.RuleInfo{Name: "ADD-CLOSED", Props: []string{"C04", "C05"}, Engine: "CFG", Floor: 1, Confirmed: 1,
 		Doc: "Add reports 'new' only after a successful insertion (or for an ephemeral event), and every such path runs the kind-5 step", Run: runAddClosed})
-	reg(&core.RuleInfo{Name: "DEL-REQ-AUTH", Props: []string{"C05"}, Engine: "PROV", Floor: 1, Confirmed: 2,
+	reg(&core.RuleInfo{Name: "DEL-REQ-AUTH", Props: []string{"C05", "C04"}, Engine: "PROV", Floor: 1, Confirmed: 2,
 		Doc: "deletion by reference always removes under the requesting author's pubkey", Run: runDelReqAuth})
 	reg(&core.RuleInfo{Name: "SQL-DISTINCT", Props: []string{"C06"}, Engine: "CFG", Floor: 1, Confirmed: 1,
 		Doc: "a sub-select that joins event_tags is DISTINCT on every path", Run: runSQLDistinct})
@@ -40,7 +40,7 @@ func init() {
 		Doc: "a container stored per loop iteration into another container is allocated in that iteration (no entry shares a mutable set with another)", Run: runFreshIter})
 	reg(&core.RuleInfo{Name: "ALL-KEYS", Props: []string{"C03", "C04", "C16", "C05"}, Engine: "CFG", Floor: 3, Confirmed: 5,
 		Doc: "loops that maintain the cache's index / registry per key run over every key (no early exit)", Run: runAllKeys})
-	reg(&core.RuleInfo{Name: "DROP-EMPTY", Props: []string{"C05", "C07", "C03"}, Engine: "INT", Floor: 2, Confirmed: 2,
+	reg(&core.RuleInfo{Name: "DROP-EMPTY", Props: []string{"C05", "C07", "C03", "C16"}, Engine: "INT", Floor: 2, Confirmed: 2,
 		Doc: "an entry holding a nested set is dropped as a whole only when that set is empty", Run: runDropEmpty})
 	reg(&core.RuleInfo{Name: "STATE-CALLERS", Props: []string{"C08", "C09"}, Engine: "CG", Floor: 6, Confirmed: 9,
 		Doc: "each merge-state mutator is called only by the handler of its own message type", Run: runStateCallers})
@@ -584,7 +584,7 @@ func runDelReqAuth(c *core.Ctx) {
 	for _, f := range an.WithAnon(delRef) {
 		for _, o := range occCallsTo(f, a.del, a.stop) {
 			n++
-			kp := occArg(o, 1)
+			kp := a.delArg(o)
 			if !strings.Contains(kp, "Pubkey="+req+"}") && !strings.HasSuffix(kp, "Pubkey="+req) {
 				bad = append(bad, fmt.Sprintf("%s at %s", clip(kp, 90), P.Pos(o.Site().Pos())))
 			}
@@ -609,6 +609,63 @@ func runSQLDistinct(c *core.Ctx) {
 	// site in the builder)
 	var distinct []ssa.Instruction
 	var tagJoins []ssa.Instruction
+	flows := map[ssa.Instruction]bool{} // the joined dataset descends from a Distinct() result
+	var upstream func(v ssa.Value, chain []*ssa.Call, seen map[ssa.Value]bool) bool
+	upstream = func(v ssa.Value, chain []*ssa.Call, seen map[ssa.Value]bool) bool {
+		v = an.Unwrap(v)
+		if v == nil {
+			return false
+		}
+		if seen[v] {
+			return true // around a loop: decided by the other edges
+		}
+		seen[v] = true
+		switch x := v.(type) {
+		case *ssa.Call:
+			n := an.CalleeName(&x.Call)
+			if strings.HasSuffix(n, "SelectDataset).Distinct") {
+				return true
+			}
+			if strings.Contains(n, "SelectDataset).") && len(x.Call.Args) > 0 {
+				return upstream(x.Call.Args[0], chain, seen) // goqu datasets are immutable: a method answers a new one built from its receiver
+			}
+			// a private helper that hands the dataset on
+			if h := an.StaticCallee(&x.Call); an.PrivateHelper(h) {
+				okAll := len(an.ReturnBlocks(h)) > 0
+				for _, rb := range an.ReturnBlocks(h) {
+					rv := an.ReturnValues(an.LastInstr(rb).(*ssa.Return))
+					if len(rv) == 0 || !upstream(rv[0], append(append([]*ssa.Call(nil), chain...), x), seen) {
+						okAll = false
+					}
+				}
+				return okAll
+			}
+		case *ssa.Phi:
+			for _, e := range x.Edges {
+				if !upstream(e, chain, seen) {
+					return false
+				}
+			}
+			return true
+		case *ssa.Parameter:
+			if len(chain) == 0 {
+				return false
+			}
+			site := chain[len(chain)-1]
+			if g := an.StaticCallee(&site.Call); g != nil {
+				for i, gp := range g.Params {
+					if gp == x && i < len(site.Call.Args) {
+						return upstream(site.Call.Args[i], chain[:len(chain)-1], seen)
+					}
+				}
+			}
+		case *ssa.UnOp:
+			if lv := an.LoadedValue(x); lv != ssa.Value(x) {
+				return upstream(lv, chain, seen)
+			}
+		}
+		return false
+	}
 	an.Region(build, nil, func(o an.Occ) {
 		call, ok := o.In.(*ssa.Call)
 		if !ok {
@@ -620,6 +677,9 @@ func runSQLDistinct(c *core.Ctx) {
 		}
 		if strings.HasSuffix(n, "SelectDataset).Join") && strings.Contains(o.Path(call.Call.Args[1]), `const:"event_tags"`) {
 			tagJoins = append(tagJoins, o.Site())
+			if upstream(call.Call.Args[0], o.Chain, map[ssa.Value]bool{}) {
+				flows[o.Site()] = true
+			}
 		}
 	})
 	if len(tagJoins) == 0 {
@@ -634,7 +694,9 @@ func runSQLDistinct(c *core.Ctx) {
 				dom = true
 			}
 		}
-		if !dom {
+		// … and the dataset that is joined is the one Distinct() answered (a bare `b.Distinct()`
+		// whose result is dropped changes nothing)
+		if !dom || !flows[j] {
 			good = false
 		}
 	}
@@ -738,6 +800,33 @@ func runDecNilAcc(c *core.Ctx) {
 			}
 			ph, isPhi := v.(*ssa.Phi)
 			nilAcc := false
+			// the element itself as accumulator: `tags[i] = append(tags[i], s)` on a slot of a freshly
+			// made container starts from the slot's zero value — nil when nothing is appended
+			if ac, isCall := v.(*ssa.Call); isCall {
+				if b, isB := ac.Call.Value.(*ssa.Builtin); isB && b.Name() == "append" {
+					if ld, isLd := an.Unwrap(ac.Call.Args[0]).(*ssa.UnOp); isLd && ld.Op == token.MUL {
+						if src, isIA := ld.X.(*ssa.IndexAddr); isIA {
+							if dst, isIA2 := st.Addr.(*ssa.IndexAddr); isIA2 && an.PathOf(src.X) == an.PathOf(dst.X) && an.PathOf(src.Index) == an.PathOf(dst.Index) {
+								if _, fresh := an.Unwrap(dst.X).(*ssa.MakeSlice); fresh {
+									initialised := false
+									an.Instrs(fn, func(in2 ssa.Instruction) {
+										if s2, isSt := in2.(*ssa.Store); isSt && s2 != st {
+											if d2, isIA3 := s2.Addr.(*ssa.IndexAddr); isIA3 && an.PathOf(d2.X) == an.PathOf(dst.X) && an.InstrDominates(s2, st) {
+												if _, mk := an.Unwrap(s2.Val).(*ssa.MakeSlice); mk {
+													initialised = true
+												}
+											}
+										}
+									})
+									if !initialised {
+										nilAcc = true
+									}
+								}
+							}
+						}
+					}
+				}
+			}
 			if isPhi {
 				hasNil, hasAppend := false, false
 				for _, e := range ph.Edges {
@@ -762,7 +851,7 @@ func runDecNilAcc(c *core.Ctx) {
 						}
 					}
 				}
-				nilAcc = hasNil && hasAppend
+				nilAcc = nilAcc || (hasNil && hasAppend)
 			}
 			construct := "store " + clip(addrSuffixGeneric(st.Addr), 40)
 			c.Check(!nilAcc, nil, fname(c, fn), construct, P.Pos(st.Pos()), "decoded slice ← "+clip(an.PathOf(st.Val), 60),
@@ -915,6 +1004,36 @@ func acquisitionPoints(c *core.Ctx, fn *ssa.Function, depth int) []ssa.Instructi
 	return out
 }
 
+// multiSection: fn itself passes through two critical sections on one path (or acquires in a loop).
+func multiSection(c *core.Ctx, fn *ssa.Function, depth int) (bool, string) {
+	if depth > 6 {
+		return false, ""
+	}
+	pts := acquisitionPoints(c, fn, depth)
+	for _, a := range pts {
+		if an.InLoop(a.Block()) {
+			return true, c.P.Pos(a.Pos()) + " (in a loop)"
+		}
+		for _, b := range pts {
+			if a != b && (before(a, b) || (a.Block() != b.Block() && an.Reachable(a.Block(), b.Block(), nil, nil))) {
+				return true, c.P.Pos(a.Pos()) + " then " + c.P.Pos(b.Pos())
+			}
+		}
+		if ci, ok := a.(ssa.CallInstruction); ok {
+			if sc := an.StaticCallee(ci.Common()); sc != nil && c.P.InModule(sc) && sc != fn {
+				switch an.CalleeName(ci.Common()) {
+				case "(*sync.RWMutex).Lock", "(*sync.Mutex).Lock", "(*sync.RWMutex).RLock":
+					continue
+				}
+				if m, w := multiSection(c, sc, depth+1); m {
+					return true, w
+				}
+			}
+		}
+	}
+	return false, ""
+}
+
 func runOneCS(c *core.Ctx) {
 	P := c.P
 	for _, fn := range libFuncs(c) {
@@ -962,6 +1081,17 @@ func runOneCS(c *core.Ctx) {
 		}
 		// two acquisitions on one path (or one inside a loop) = two critical sections
 		var twice []string
+		// … also when they sit inside a method of the same receiver this one calls
+		for _, a := range pts {
+			if _, isLock := map[string]bool{"(*sync.RWMutex).Lock": true, "(*sync.Mutex).Lock": true, "(*sync.RWMutex).RLock": true}[an.CalleeName(a.(ssa.CallInstruction).Common())]; isLock {
+				continue
+			}
+			if sc := an.StaticCallee(a.(ssa.CallInstruction).Common()); sc != nil {
+				if multi, where := multiSection(c, sc, 1); multi {
+					twice = append(twice, "inside "+fname(c, sc)+": "+where)
+				}
+			}
+		}
 		for _, a := range pts {
 			for _, b := range pts {
 				if a == b {
@@ -1273,7 +1403,7 @@ func runDropEmpty(c *core.Ctx) {
 			case strings.Contains(op, ".deleted"):
 				props = []string{"C05"}
 			case strings.Contains(op, ".idx"):
-				props = []string{"C03"}
+				props = []string{"C03", "C16"} // C16: a REQ on the cache handler is answered through this index
 			}
 			for sp := range subj {
 				fr := an.ConstFrame(sp)
